@@ -3,8 +3,9 @@ package frag
 import (
 	"bytes"
 	"fmt"
+	"io"
+	"verifharness/dirtysw"
 
-	"github.com/Eyevinn/mp4ff/bits"
 	"github.com/Eyevinn/mp4ff/mp4"
 
 	"verifharness/ref/boxwalk"
@@ -185,7 +186,7 @@ func poisonBytes(b []byte) {
 
 func encodeBox(b mp4.Box, sw bool) ([]byte, error) {
 	if sw {
-		w := bits.NewFixedSliceWriter(int(b.Size()))
+		w := dirtysw.New(int(b.Size()))
 		if err := b.EncodeSW(w); err != nil {
 			return nil, err
 		}
@@ -203,6 +204,55 @@ func encodeBox(b mp4.Box, sw bool) ([]byte, error) {
 // that must be written after the encoded mdat header. opsDone counts the API
 // calls made.
 func BuildFragment(h *History, fs *FragmentSpec) (f *mp4.Fragment, tail []byte, opsDone map[string]int, err error) {
+	return BuildFragmentIn(h, fs, nil)
+}
+
+var infoLevels = []string{"", "all:1", "trun:1", "all:2", "tfhd:1,trun:2"}
+
+// observe executes one observer op (history.go: OpObserve*). Errors of an observer do not end the history:
+// they are counted in opsDone under "<kind>:error".
+func observe(f *mp4.Fragment, ms *mp4.MediaSegment, op Op, opsDone map[string]int) {
+	var err error
+	lv := infoLevels[(op.Arg>>1)%len(infoLevels)]
+	switch op.Kind {
+	case OpObserveSize:
+		_ = f.Size()
+	case OpObserveInfo:
+		err = f.Info(io.Discard, lv, "", "  ")
+	case OpObserveMoofInfo:
+		err = f.Moof.Info(io.Discard, lv, "", "  ")
+	case OpObserveEncode:
+		if op.Arg&1 == 1 {
+			err = f.EncodeSW(dirtysw.New(int(f.Size()) + 64))
+		} else {
+			err = f.Encode(io.Discard)
+		}
+	case OpObserveSegSize, OpObserveSegInfo, OpObserveSegEncode:
+		if ms == nil {
+			opsDone[op.Kind+":skipped-not-attached"]++
+			return
+		}
+		switch op.Kind {
+		case OpObserveSegSize:
+			_ = ms.Size()
+		case OpObserveSegInfo:
+			err = ms.Info(io.Discard, lv, "", "  ")
+		default:
+			if op.Arg&1 == 1 {
+				err = ms.EncodeSW(dirtysw.New(int(ms.Size()) + 64))
+			} else {
+				err = ms.Encode(io.Discard)
+			}
+		}
+	}
+	if err != nil {
+		opsDone[op.Kind+":error"]++
+	}
+}
+
+// BuildFragmentIn is BuildFragment for a fragment that is attached to ms (when non-nil) right after it is created,
+// before its samples are added; segment-level observer ops then go to ms.
+func BuildFragmentIn(h *History, fs *FragmentSpec, ms *mp4.MediaSegment) (f *mp4.Fragment, tail []byte, opsDone map[string]int, err error) {
 	opsDone = map[string]int{}
 	if fs.Multi {
 		f, err = mp4.CreateMultiTrackFragment(fs.Seq, fs.Tracks)
@@ -217,9 +267,24 @@ func BuildFragment(h *History, fs *FragmentSpec) (f *mp4.Fragment, tail []byte, 
 	if fs.LargeMdat {
 		f.Mdat.LargeSize = true
 	}
+	if fs.PreOptimize {
+		f.EncOptimize = mp4.OptimizeNone
+		if h.Optimize {
+			f.EncOptimize = mp4.OptimizeTrun
+		}
+		opsDone["EncOptimize-set-before-additions:"+f.EncOptimize.String()]++
+	}
+	if ms != nil {
+		ms.AddFragment(f)
+		opsDone["MediaSegment.AddFragment-before-additions"]++
+	}
 	var mdatOff uint32
 	for _, op := range fs.Ops {
 		opsDone[op.Kind]++
+		if IsObserver(op.Kind) {
+			observe(f, ms, op, opsDone)
+			continue
+		}
 		switch op.Kind {
 		case OpAddFullSample:
 			s := op.Samples[0]
@@ -348,7 +413,7 @@ func EncodeFragment(f *mp4.Fragment, optimize, sw bool, tail []byte) ([]byte, er
 	}
 	var out []byte
 	if sw {
-		w := bits.NewFixedSliceWriter(int(f.Size()) + 64)
+		w := dirtysw.New(int(f.Size()) + 64)
 		if err := f.EncodeSW(w); err != nil {
 			return nil, err
 		}
@@ -462,6 +527,13 @@ func Build(h *History, bo BuildOptions) (*Built, error) {
 				ms = mp4.NewMediaSegmentWithoutStyp()
 			}
 			bs.Obj = ms
+			var attach *mp4.MediaSegment
+			if ss.AttachFirst {
+				attach = ms
+				if ss.PreOptimize && h.Optimize {
+					ms.EncOptimize = mp4.OptimizeTrun
+				}
+			}
 			var bfs []*BuiltFrag
 			failed := false
 			for fi := range ss.Fragments {
@@ -470,14 +542,16 @@ func Build(h *History, bo BuildOptions) (*Built, error) {
 				b.Frags = append(b.Frags, bf)
 				bfs = append(bfs, bf)
 				bf.Panic = guard(func() {
-					bf.Obj, _, bf.OpsDone, bf.Err = BuildFragment(h, fs)
+					bf.Obj, _, bf.OpsDone, bf.Err = BuildFragmentIn(h, fs, attach)
 				})
 				if bf.Panic != nil || bf.Err != nil {
 					bf.Stage = "build"
 					failed = true
 					continue
 				}
-				ms.AddFragment(bf.Obj)
+				if attach == nil {
+					ms.AddFragment(bf.Obj)
+				}
 			}
 			var out []byte
 			var encErr error
@@ -489,7 +563,7 @@ func Build(h *History, bo BuildOptions) (*Built, error) {
 				}
 				pi = guard(func() {
 					if h.SW {
-						w := bits.NewFixedSliceWriter(int(ms.Size()) + 64)
+						w := dirtysw.New(int(ms.Size()) + 64)
 						encErr = ms.EncodeSW(w)
 						out = w.Bytes()
 					} else {
